@@ -395,12 +395,12 @@ namespace net
         viol(O_N8_DL, "N8", "N8.dl.rejected", "a valid difference relation was rejected with invalid_argument: " + f_text(meaning));
       return;
     }
-    queue_clean = false;
     if (!valid)
     { // accepted although not a difference constraint we can map to edges: keep only the semantic oracles
       dl_hidden[th] = true;
       cnt.inc("dl_hidden.unexpected_accept");
       register_result(ret, meaning, O_N8_DL, "dl.rel", nullptr);
+      queue_clean = false;
       after_op(false, true, {}, "dlrel");
       return;
     }
@@ -440,6 +440,7 @@ namespace net
       dl_hidden[th] = true;
       cnt.inc("dl_hidden.unexpected_structure");
     }
+    queue_clean = false;
     after_op(false, true, {}, "dlrel");
   }
 
@@ -486,7 +487,6 @@ namespace net
       meaning = f_n(F::AND, {edge_atom(edges[0]), edge_atom(edges[1])});
       ret = th == IDL ? idl->new_distance(from, to, mn.r.get_num().get_si(), mx.r.get_num().get_si()) : rdl->new_distance(from, to, to_inf(mn), to_inf(mx));
     }
-    queue_clean = false;
     cnt.inc(std::string(th == IDL ? "idl" : "rdl") + (two ? ".dist2" : ".dist"));
     tr("dldist " + f_text(meaning) + " -> " + lstr(ret));
     std::vector<smt::var> inner = fresh_between(pr, ret);
@@ -519,6 +519,7 @@ namespace net
       dl_hidden[th] = true;
       cnt.inc("dl_hidden.unexpected_structure");
     }
+    queue_clean = false;
     after_op(false, true, {}, "dldist");
   }
 } // namespace net
